@@ -18,7 +18,9 @@ RULE = ("a case = (wait flag, control script over play/pause/resume/stop/close i
         "(f/h/i/b), channels (1/2), ragged lengths, the argument kind of the audio (list, tuple, generator, iterator, "
         "Stream, and instrumented sources whose every next() is a yield point so that players are pre-empted in "
         "mid-chunk), the call style (explicit keywords, defaults omitted, rate=, deprecated nchannels=) and iterables "
-        "that raise after k chunks; the backend records the open() parameters and, per write, the frame count and "
+        "that raise after k chunks; sample values include the extremes of every integer format (most negative / most "
+        "positive / 0 / -1) and non-integer float32 values; every close is reached through close / terminate / __exit__ / "
+        "a with-block left normally or by an exception raised inside it; the backend records the open() parameters and, per write, the frame count and "
         "the buffer length; schedules are discovered on the IMPLEMENTATION: all schedules with <= 2 pre-emptions (<= 1 "
         "for the larger ones) for the small configurations, including 2-3 concurrent players with instrumented "
         "sources under both strategies, seeded random walks beyond; each one is re-executed and replayed in Coq; "
@@ -106,6 +108,29 @@ def audio(k, nchunks, size, ragged):
   return [((7 * k + 3 * j) % 19) - 9 for j in range(n)]
 
 
+EXTREMES = {"b": [-128, 127, 0, -1, -127, 1], "h": [-32768, 32767, 0, -1, -32767, 255],
+            "i": [-2 ** 31, 2 ** 31 - 1, 0, -1, 1 - 2 ** 31, 65536],
+            "f": [-(2 ** 20 + 1), 2 ** 20 + 1, 0, -1, 3, -5]}      # floats are played as v / 8
+
+
+def extreme_audio(fmt, n, k=0):
+  """n samples cycling through the extreme / special values of the format (most negative first)."""
+  pool = EXTREMES[fmt]
+  return [pool[(j + k) % len(pool)] for j in range(n)]
+
+
+def with_format(cmd, fmt, rng=None):
+  """The play command with sample format fmt and a content that contains the extremes of that format."""
+  vals = list(cmd[3])
+  if rng is None:
+    vals = extreme_audio(fmt, len(vals))
+  else:
+    for j in range(len(vals)):
+      if rng.random() < 0.5:
+        vals[j] = rng.choice(EXTREMES[fmt])
+  return cmd[:3] + [vals, fmt] + cmd[5:]
+
+
 def play(k, nchunks, size=2, channels=1, ragged=False):
   return ["play", size, channels, audio(k, nchunks, size * channels, ragged)]
 
@@ -121,17 +146,20 @@ def small_configs(tier):
   """(wait, script, pre-emption bound, tag): every schedule within the bound is generated"""
   out = []
 
-  def add(np_, nch, n, bound, bad=None):
+  def add(np_, nch, n, bound, bad=None, via=None):
     for seq in itertools.product(ctl_alphabet(np_), repeat=n):
       for wait in (False, True):
         plays_ = [play(k, nch if k == 0 else max(1, nch - 1), 2, 1, ragged=(nch == 2)) for k in range(np_)]
         if bad is not None:      # the iterable of the first player raises after `bad` chunks
           plays_[0] = ["playbad", 2, 1, audio(0, nch, 2, False), bad]
         elif nch == 2 and n == 1:
-          plays_[0] = plays_[0] + ["h"]      # an integer sample format, padded with the integer 0
-        script = plays_ + [list(x) for x in seq] + [["close"]]
+          # an integer sample format, padded with the integer 0, content = the extremes of the format
+          plays_[0] = with_format(plays_[0], "hib"[len(out) % 3])
+        elif nch == 2 and n == 0:
+          plays_[0] = with_format(plays_[0], "f")
+        script = plays_ + [list(x) for x in seq] + [["close"] if via is None else ["close", via]]
         out.append((wait, script, bound, "np=%d nch=%d ctl=%d bound=%d%s" % (
-          np_, nch, n, bound, "" if bad is None else " bad=%d" % bad)))
+          np_, nch, n, bound, ("" if bad is None else " bad=%d" % bad) + ("" if via is None else " via=" + via))))
 
   if tier == "quick":
     add(1, 1, 0, 2)
@@ -141,6 +169,9 @@ def small_configs(tier):
     add(1, 2, 0, 2, bad=0)
     add(1, 2, 0, 2, bad=1)
     add(1, 2, 1, 1, bad=1)
+    add(1, 3, 0, 1, via="exc")      # the with-block is left by an exception
+    add(1, 3, 1, 1, via="exc")
+    add(1, 2, 0, 1, via="with")
   else:
     for nch in (1, 2, 3):
       for n in (0, 1, 2):
@@ -154,9 +185,15 @@ def small_configs(tier):
       add(1, 2, 1, 2, bad=bad)
       add(1, 3, 2, 1, bad=bad)
     add(2, 2, 0, 1, bad=1)
+    for via in ("exc", "with", "terminate", "exit"):
+      add(1, 3, 0, 2, via=via)
+      add(1, 3, 1, 2 if via == "exc" else 1, via=via)
+    add(2, 2, 0, 1, via="exc")
+    add(1, 2, 2, 1, via="exc")
   return out
 
 
+VIAS = ["close", "close", "terminate", "exit", "with", "exc"]
 KINDS = ["list", "tuple", "gen", "iter", "stream", "src", "src_stream", "src_gen"]
 
 
@@ -169,7 +206,7 @@ def src_configs(tier):
       if tier == "quick" and ((fa, fb, sa, sb) not in [("f", "f", 2, 2), ("h", "h", 2, 2)]
                               or (strategy == "struct" and fa == "h")):
         continue
-      script = [["play", sa, 1, [1, 2, 3, 4, 5], fa, "src", "kw"],
+      script = [["play", sa, 1, extreme_audio(fa, 5) if fa == "h" else [1, 2, 3, 4, 5], fa, "src", "kw"],
                 ["play", sb, 1, [105, 106, 107, 108], fb, "src_stream" if fa == "h" else "src", "kw"], ["close"]]
       out.append((True, script, 1, strategy, "src2 %s%s %d/%d %s" % (fa, fb, sa, sb, strategy)))
     # stereo, one instrumented and one plain player, a control call in between
@@ -243,17 +280,17 @@ def gen_sched(tier, rng):
         if kind.startswith("src") and len(script[k][3]) > 8:
           kind = "gen"                       # keep instrumented schedules short
         how = rng.choice(["kw", "kw", "rate", "omit"])
-        script[k] = script[k] + [fmt, kind, how]
+        script[k] = with_format(script[k], fmt, rng) + [kind, how]
     alphabet = ctl_alphabet(np_)[1:]
     for _k in range(rng.randrange(0, 7)):
-      x = ["close"] if rng.random() < 0.08 else list(rng.choice(alphabet))
+      x = ["close", rng.choice(VIAS)] if rng.random() < 0.08 else list(rng.choice(alphabet))
       # control calls mostly after the plays, sometimes between them
       pos = len(script) if rng.random() < 0.6 else rng.randrange(1, len(script) + 1)
       script.insert(pos, x)
     if rng.random() < 0.85:
-      script.append(["close"])
+      script.append(["close", rng.choice(VIAS)])
     if rng.random() < 0.2:
-      script += [play(7, 1, size, channels)] + ([["close"]] if rng.random() < 0.5 else [])
+      script += [play(7, 1, size, channels)] + ([["close", rng.choice(VIAS)]] if rng.random() < 0.5 else [])
     wait = rng.random() < 0.5
     strategy = rng.choice(["struct", "struct", "array"])
     close_via = rng.choice(["close", "close", "terminate", "exit"])
